@@ -301,7 +301,7 @@ theorem stepCore_eff {s s' : St} {op : Op} {o : Out} (h : stepCore s op = some (
   case setFactors x =>
     simp only [setFactors, Option.bind_eq_bind, Option.bind_eq_some_iff, req_eq_some,
       Option.pure_def, Option.some.injEq, Prod.mk.injEq] at h
-    obtain ⟨_, _, c, _, rfl, _⟩ := h
+    obtain ⟨_, _, _, _, c, _, rfl, _⟩ := h
     exact Eff.of_frame (by simp)
   case collectUndistributed =>
     simp only [collectUndistributed, Option.bind_eq_bind, Option.bind_eq_some_iff, req_eq_some] at h
